@@ -28,19 +28,59 @@ type vticker struct {
 // Epoch is the instant the virtual clock starts at (a fixed date, whole second).
 var Epoch = time.Date(2030, 1, 2, 3, 4, 5, 0, time.UTC)
 
+// Retired ticker channels.  When the environment is reset the goroutines of abandoned instances are still blocked on
+// their virtual tickers (`for { ...; <-ticker.C }` loops never end) and would keep every abandoned instance alive -
+// tens of thousands per crash-enumeration unit.  Their channels are closed and remembered; a goroutine that wakes up
+// from a receive on a retired channel belongs to a dead instance and is ended with runtime.Goexit (its deferred calls
+// run).  The channel objects are retained so that their addresses cannot be reused by live channels.
+var (
+	retiredKeys  = map[uintptr]struct{}{}
+	retiredChans []chan time.Time
+)
+
+func retireTickersLocked() {
+	for _, t := range vtickers {
+		k := chanKey(t.c)
+		if _, done := retiredKeys[k]; done {
+			continue
+		}
+		retiredKeys[k] = struct{}{}
+		retiredChans = append(retiredChans, t.c)
+		close(t.c)
+	}
+	vtickers = nil
+	// the goroutines of long-retired channels have woken up and ended long ago: forget the oldest half from time to time
+	if len(retiredChans) > 200000 {
+		half := len(retiredChans) / 2
+		for _, c := range retiredChans[:half] {
+			delete(retiredKeys, chanKey(c))
+		}
+		retiredChans = append([]chan time.Time{}, retiredChans[half:]...)
+	}
+}
+
+// isRetired reports whether ch is the channel of a ticker of an abandoned environment.
+func isRetired(ch any) bool {
+	k := chanKey(ch)
+	cmu.Lock()
+	_, ok := retiredKeys[k]
+	cmu.Unlock()
+	return ok
+}
+
 // UseVirtualClock switches the clock on and resets it to Epoch.
 func UseVirtualClock() {
 	cmu.Lock()
 	vclockOn = true
 	vnow = Epoch
-	vtickers = nil
+	retireTickersLocked()
 	cmu.Unlock()
 }
 
 func UseRealClock() {
 	cmu.Lock()
 	vclockOn = false
-	vtickers = nil
+	retireTickersLocked()
 	cmu.Unlock()
 }
 
